@@ -328,7 +328,33 @@ def replay(pid, path):
     return 0
 
 
+class _QuietPipe:
+    """stdout wrapper: a reader that closes the pipe early (| head) must not change the exit code"""
+
+    def __init__(self, f):
+        self._f, self._dead = f, False
+
+    def write(self, s):
+        if not self._dead:
+            try:
+                return self._f.write(s)
+            except BrokenPipeError:
+                self._dead = True
+        return len(s)
+
+    def flush(self):
+        if not self._dead:
+            try:
+                self._f.flush()
+            except BrokenPipeError:
+                self._dead = True
+
+    def __getattr__(self, name):
+        return getattr(self._f, name)
+
+
 def main(argv=None):
+    sys.stdout = _QuietPipe(sys.stdout)
     ap = argparse.ArgumentParser()
     ap.add_argument("pid")
     ap.add_argument("tier", nargs="?", default=None)
